@@ -268,7 +268,7 @@ func sp(t *rapid.T) string {
 }
 
 func genW(t *rapid.T) float64 {
-	return rapid.SampledFrom([]float64{0.1, 0.25, 0.5, 0.3333, 0.0001, 1, 0.9, 0.05, 1.5, 0.2, 0.75, 0, -1}).Draw(t, "w")
+	return rapid.SampledFrom([]float64{0.1, 0.25, 0.5, 0.3333, 0.0001, 1, 0.9, 0.05, 1.5, 0.2, 0.75, 0, -1, 10, 50, 100, 20.5, 0.01, 1000}).Draw(t, "w")
 }
 
 func fw(w float64) string { return strconv.FormatFloat(w, 'f', -1, 64) }
@@ -403,6 +403,21 @@ func genProgram(t *rapid.T) []cmd {
 	shadow := &model{} // only used to aim commands; the checked model is built separately
 	for i := 0; i < n; i++ {
 		c := genCmd(t, shadow)
+		// now and then an earlier add comes once more, letter for letter (a registry announces the
+		// same line again, an operator pins an instance after a del by copying its line): it is an
+		// add like any other
+		if len(prog) > 0 && rapid.IntRange(0, 5).Draw(t, "repeat-an-earlier-add-verbatim") == 0 {
+			var adds []cmd
+			for _, e := range prog {
+				if e.kind == "add" {
+					adds = append(adds, e)
+				}
+			}
+			if len(adds) > 0 {
+				c = adds[rapid.IntRange(0, len(adds)-1).Draw(t, "which-add")]
+				hx.Class("earlier-add-repeated-verbatim")
+			}
+		}
 		prog = append(prog, c)
 		switch c.kind {
 		case "add":
